@@ -165,6 +165,8 @@ class Gen:
         simple = ["pop", "pop2", "multi", "bytes", "assert", "comment", "store", "lambda", "compr", "triple", "walrus"]
         if expected and ctx.get("repeat"):
             simple += ["repint", "repint", "repbytes"]
+        # hazard lines: the TEXT of the source line looks like something the frame search keys on
+        simple += ["hz_import_comment", "hz_import_string", "hz_star", "hz_paths", "hz_tabs", "hz_long", "hz_t2pt"]
         if ctx.get("app", True):
             simple.append("log")
         nested = ["if", "ifelse", "if3", "cond", "for", "while"]
@@ -184,7 +186,22 @@ class Gen:
             kinds += ["break"]
         k = rng.choice(kinds)
         A = lambda t: w.add(sp + t, expected)
-        if k == "repint":
+        if k == "hz_import_comment":
+            A("pt.Pop(pt.Int({M})),  # remember to import the limits from pyteal.config")
+        elif k == "hz_import_string":
+            A('pt.Pop(pt.Concat(pt.Bytes("please import pyteal first"), pt.Itob(pt.Int({M})))),')
+        elif k == "hz_star":
+            A("pt.Pop(pt.Int({M})),  # from pyteal import *  /  import pyteal as pt")
+        elif k == "hz_paths":
+            A('pt.Pop(pt.Concat(pt.Bytes("pyteal/ast pyteal/compiler stack_frame.py NatalStackFrame _compile_impl"), pt.Itob(pt.Int({M})))),')
+        elif k == "hz_tabs":
+            A("pt.Pop(pt.Int({M})),\t#\ttabs\timport\tpyteal\there")
+        elif k == "hz_long":
+            A("pt.Pop(pt.Int({M}) + %s),  # %s import pyteal" % (" + ".join(["pt.Int(0)"] * rng.randint(20, 60)), "long " * rng.randint(200, 900)))
+        elif k == "hz_t2pt":
+            # single-line statement: the neighbouring TEAL line belongs to the same source line
+            A("pt.Pop(pt.Int({M})),  # T2PT%d is what PyTeal writes in its own sources; import pyteal" % rng.randint(0, 8))
+        elif k == "repint":
             A("pt.Pop(pt.Int(%d))," % w.repeat_value(rng, w.repeats))
         elif k == "repbytes":
             A('pt.Pop(pt.Bytes("%s")),' % w.repeat_value(rng, w.repeat_bytes))
@@ -574,6 +591,23 @@ def known_trailing_blanks_project():
     w.add("def build():")
     w.add("    return pt.Seq(")
     w.add('        pt.Comment("a comment that is the longest line of the program and ends in blanks   ", pt.Pop(pt.Int({M}))),')
+    w.add("        pt.Int({M}),")
+    w.add("    )")
+    w.add(FOOTER.rstrip("\n"))
+    markers = {m: [w.relpath, ln, exp] for m, (ln, exp) in w.markers.items()}
+    return {"files": {w.relpath: w.text()}, "markers": markers, "kind": "expr", "min_version": 2, "app_only": False}
+
+
+def known_t2pt_comment_project():
+    """Replay of the finding `t2pt-comment-in-user-line`: a user line whose comment contains `# T2PT5` is taken for
+    compiler-generated code and the inference pass re-attributes its constant to the NEXT TEAL line's frame."""
+    w = FileWriter("main.py", 0)
+    w.add(HEADER.rstrip("\n"))
+    w.add("")
+    w.add("def build():")
+    w.add("    return pt.Seq(")
+    w.add("        pt.Pop(pt.Int({M})  # T2PT5 a user comment")
+    w.add("               + pt.Int({M})),")
     w.add("        pt.Int({M}),")
     w.add("    )")
     w.add(FOOTER.rstrip("\n"))
